@@ -65,6 +65,66 @@ def case(pid: str, inputs: list[dict], call: dict, cls: str, operands: list, **e
                     "operands": [describe(o, inputs) for o in operands], **extra}}
 
 
+def einsum_cases(rng: np.random.Generator, tier: str) -> list[dict]:
+    """pt.einsum with 1..3 operands over the labels i j k: every assignment of
+    the lengths {1, 3, 4} (0 in a few) to the operand axes for directed
+    subscript patterns, sampled beyond; explicit and implicit output."""
+    L = "ijk"
+    out: list[dict] = []
+
+    def one(subs: list[tuple[int, ...]], lens: list[tuple[int, ...]], res: Any,
+            dts: list[str] | None = None) -> None:
+        spec = ",".join("".join(L[x - 1] for x in sub) for sub in subs)
+        if res is not None:
+            spec += "->" + "".join(L[x - 1] for x in res)
+        ins = [inp(f"x{a}", ln, (dts or ["f8"] * len(subs))[a]) for a, ln in enumerate(lens)]
+        pid = f"einsum/{spec}/" + "/".join("x".join(map(str, ln)) or "s" for ln in lens) \
+            + ("/" + "-".join(dts) if dts else "")
+        out.append(case(pid, ins, {"op": "einsum", "spec": spec,
+                                   "args": list(range(1, len(ins) + 1))},
+                        "einsum", list(range(1, len(ins) + 1)),
+                        subs=[list(x) for x in subs], out=list(res or ()),
+                        implicit=res is None))
+    directed = [([(1,), (1,)], (1,)), ([(1,), (1,)], ()), ([(1,), (1,), (1,)], (1,)),
+                ([(1,), (1,), (1,)], ()), ([(1, 2), (2, 3)], (1, 3)), ([(1, 2), (2, 3)], None),
+                ([(1, 2), (2,), (2, 3)], (1, 3)), ([(1, 2), (1, 2)], (2, 1)),
+                ([(1, 2)], (2, 1)), ([(1, 2)], (1,)), ([(1, 2)], None),
+                ([(1, 2), (1, 2), (2, 1)], (1,)), ([(1,), (2,)], (2, 1)), ([(1,), (2,)], None)]
+    for subs, res in directed:
+        naxes = sum(len(x) for x in subs)
+        for combo in itertools.product((1, 3, 4), repeat=naxes):
+            it = iter(combo)
+            one(subs, [tuple(next(it) for _ in sub) for sub in subs], res)
+    # wrong rank, repeated / foreign output labels, zero lengths, dtypes
+    one([(1, 2)], [(3,)], (1,))
+    one([(1,)], [(3, 3)], (1,))
+    one([(1, 2)], [(3, 4)], (1, 1))
+    one([(1, 2)], [(3, 4)], (3,))
+    one([(1, 2), (2, 3)], [(0, 3), (3, 0)], (1, 3))
+    one([(1, 2), (2, 3)], [(2, 0), (0, 2)], (1, 3))
+    one([(1, 2), (2, 3)], [(2, 0), (1, 2)], (1, 3))
+    for da, db in itertools.product(DTYPES, repeat=2):
+        one([(1, 2), (2, 3)], [(2, 3), (3, 2)], (1, 3), [da, db])
+    for d in DTYPES:
+        one([(1, 2)], [(2, 3)], (1,), [d])
+    n = 400 if tier == "quick" else 6000
+    for _ in range(n):
+        k = int(rng.integers(1, 4))
+        subs = [tuple(int(x) for x in rng.integers(1, 4, size=int(rng.integers(0, 3))))
+                for _ in range(k)]
+        if any(len(set(sub)) != len(sub) for sub in subs):
+            continue            # diagonals: pytato documents them as unsupported
+        labels = sorted({x for sub in subs for x in sub})
+        if rng.random() < 0.25:
+            res = None
+        else:
+            res = tuple(int(x) for x in rng.permutation(labels)[:int(rng.integers(
+                0, len(labels) + 1))])
+        lens = [tuple(int(rng.choice((1, 1, 2, 3, 0))) for _ in sub) for sub in subs]
+        one(subs, lens, res)
+    return out
+
+
 def cases(tier: str) -> list[dict]:
     rng = np.random.default_rng(seed())
     out: list[dict] = []
@@ -263,6 +323,7 @@ def cases(tier: str) -> list[dict]:
     for da, db in itertools.product(DTYPES, repeat=2):
         out.append(case(f"matmul/dt/{da}/{db}", [inp("a", (2, 2), da), inp("b", (2, 2), db)],
                         {"op": "matmul", "a": 1, "b": 2}, "matmul", [1, 2]))
+    out += einsum_cases(rng, tier)
     bs = all_shapes(2, (0, 1, 2, 3))
     for sa, sb in itertools.product(bs, bs + [(2, 2, 3), (1, 1, 1)]):
         out.append(case(f"broadcast_to/{sa}/{sb}", [inp("x", sa)],
